@@ -214,12 +214,14 @@ theorem C20_loop_recurs :
     (decodeAt [48, 4, 1, 0, 4, 128] 1).toOption.map (·.2) = some 4 ∧
     (decodeAt [48, 4, 1, 0, 4, 128] 4).toOption.map (·.2) = some 1 := by decide
 
-/-- processing a response touches only the security-model slot of the message-processing
-    instance (created once, identical every time): an exception raised for one datagram leaves the
-    client's configuration, credentials and discovery cache as they were (generated write
-    footprint of `V3MPM.decode`). -/
+/-- processing a response touches only two slots of the message-processing instance: the
+    security model (created once, identical every time) and the discovery cache, which is
+    *forgotten* when the security model raises (the next request runs the discovery again) —
+    so an exception raised for one datagram leaves the client's configuration and credentials as
+    they were and the client usable for the next request (generated write footprint of
+    `V3MPM.decode`). -/
 theorem C20_usable_after_error :
-    (Gen.selfWrites.filter (fun w => w.1 == "V3MPM" && w.2.1 == "decode")).map (·.2.2.1) = ["security_model"] := by
+    (Gen.selfWrites.filter (fun w => w.1 == "V3MPM" && w.2.1 == "decode")).map (·.2.2.1) = ["disco", "security_model"] := by
   decide
 
 /- non-vacuity: an ordinary response satisfies the guard -/
